@@ -136,7 +136,7 @@ def tight_div(n, d, cntn, w):
 
 class Exp:
     """what the contract promises for one case at one digit width"""
-    __slots__ = ("region", "label", "outs", "verify", "rc_ok", "unsafe", "obs_note", "free")
+    __slots__ = ("region", "label", "outs", "verify", "rc_ok", "unsafe", "obs_note", "free", "solo")
 
     def __init__(self, region, outs=None, label="", verify=None, rc_ok=None, unsafe=False, obs_note=None,
                  free=()):
@@ -148,6 +148,7 @@ class Exp:
         self.unsafe = unsafe        # arguments outside the memory-safe domain of a void function
         self.obs_note = obs_note    # non-gating remark counted as observation
         self.free = set(free)       # operands that are outputs judged by `verify`, not by value
+        self.solo = False           # run in a process of its own (see work_chunk)
 
 
 def _mult_region(a, b, cnta, w, L):
@@ -369,9 +370,10 @@ def expect(c, w, L):
         r = math.isqrt(a)
         if a == 0:
             return Exp("must", {S[0]: 0}, label="zero")
+        par = "odd-bit-length" if a.bit_length() % 2 else "even-bit-length"
         if a.bit_length() >= cn(0) * w - 1:
-            return Exp("may", {S[0]: r}, label="top-bits-of-capacity-used")
-        return Exp("must", {S[0]: r}, label="odd-bit-length" if a.bit_length() % 2 else "even-bit-length")
+            return Exp("may", {S[0]: r}, label=par)
+        return Exp("must", {S[0]: r}, label=par)
 
     if op == OP_MOD:
         a, m = val(0), val(1)
@@ -560,7 +562,11 @@ def expect(c, w, L):
             return "invalid-recoding" if O.check_jsf(r0, r1, a, b) else ""
         if size < 2 * off:
             return Exp("may", verify=ver, label="array<2*(bits+1)")
-        return Exp("must", verify=ver, label="zero-operand" if (a == 0 or b == 0) else "")
+        e = Exp("must", verify=ver, label="zero-operand" if (a == 0 or b == 0) else "")
+        # on the pinned tree a zero scalar makes bn_calc_jsf read an uninitialised digit: it may overrun
+        # the array or never terminate.  Isolated so that it cannot poison or starve other cases.
+        e.solo = (a == 0 or b == 0)
+        return e
 
     if op == OP_COMBO:
         a, off, wb, wc = val(0), c.x[0], c.x[1], c.x[2]
@@ -1647,8 +1653,8 @@ def work_chunk(job):
         # arguments outside the memory-safe domain of the void shift functions may corrupt the heap
         # silently in builds without ASan: those cases get a process of their own
         exps = [expect(c, v["w"], v["L"]) for c in sel]
-        solo = [i for i, e in enumerate(exps) if e.unsafe]
-        batch = [i for i, e in enumerate(exps) if not e.unsafe]
+        solo = [i for i, e in enumerate(exps) if e.unsafe or e.solo]
+        batch = [i for i, e in enumerate(exps) if not (e.unsafe or e.solo)]
         results = [None] * len(sel)
         bres, text = run_cases_ex(exe, [sel[i].encode() for i in batch], SOFT_ENV)
         bres = list(bres) + [common.Crash("exit", "no result", None)] * (len(batch) - len(bres))
@@ -1671,9 +1677,10 @@ def work_chunk(job):
             results[i] = rr[0] if rr else common.Crash("exit", "no result", None)
         for k, n in soft_reports(text).items():
             part["observations"][k] = part["observations"].get(k, 0) + n
-        for c, res in zip(sel, results):
+        solo_set = set(solo)
+        for i, (c, res) in enumerate(zip(sel, results)):
             evaluate(c, v, res, part)
-            if hfile and isinstance(res, common.Crash) and res.kind == "hang":
+            if hfile and isinstance(res, common.Crash) and res.kind == "hang" and i not in solo_set:
                 try:
                     with open(hfile, "ab") as fh:
                         fh.write(b"x")
